@@ -90,7 +90,7 @@ REG.classes["SectionParser"]["fields"].setdefault("version", OBJ)
 NUM = REG.add(Contract(
     "reader.SectionParser.num", params={"self": REF("SectionParser"), "x": STR, "default": NONE},
     ensures=num_post, reveal=("num",), returns=lambda c: VObj(z3.Const(fresh_name("num_res"), PyObj)),
-    properties=("C08", "C19"), noraise=True))
+    properties=("C08", "C19", "C03", "C04"), noraise=True))
 NUM.note = "as a callee the result is an opaque object (int64, float64 or the original str)"
 
 
@@ -141,14 +141,14 @@ ITEM_FRAME["$cls"] = None
 
 META_C = REG.add(Contract(
     "reader.SectionParser.metadata", params={"self": REF("SectionParser"), "keys": KEYS()},
-    ensures=metadata_post, returns=LI.HI, modifies=dict(ITEM_FRAME), properties=("C08", "C19"), noraise=True, reveal=("num",)))
+    ensures=metadata_post, returns=LI.HI, modifies=dict(ITEM_FRAME), properties=("C08", "C19", "C03", "C04"), noraise=True, reveal=("num",)))
 
 PARAMS_C = REG.add(Contract(
     "reader.SectionParser.params", params={"self": REF("SectionParser"), "keys": KEYS()},
     ensures=lambda c: [("original-mnemonic-is-the-parsed-name", z3.Select(c.h("original_mnemonic"), c.res.t) == c.a["keys"].d["name"].t),
                        ("value-always-through-num", z3.Select(c.h("value"), c.res.t) == num_result(c.a["keys"].d["value"].t)),
                        ("new-object", z3.Not(z3.Select(c.old("$alloc"), c.res.t)))],
-    returns=LI.HI, modifies=dict(ITEM_FRAME), properties=("C08", "C19"), noraise=True))
+    returns=LI.HI, modifies=dict(ITEM_FRAME), properties=("C08", "C19", "C03", "C04"), noraise=True))
 
 CURVES_C = REG.add(Contract(
     "reader.SectionParser.curves", params={"self": REF("SectionParser"), "keys": KEYS()},
